@@ -138,6 +138,7 @@ class Sim:
         self.opn = 0
         self.probes = {}
         self.stats = {"faults_fired": {}, "reach": {}, "kinds": {}}
+        self.between = None
         self.absent_seen = []
 
     # -- lookups --------------------------------------------------------------
@@ -217,7 +218,10 @@ class Sim:
             kw = {k: env._fresh() for k in op.get("kw", [])}
             r = target(*args, **kw)
             if isinstance(r, types.GeneratorType) and op.get("drain", True):
-                # a generator function called as a plain call: drain it
+                # a generator function called as a plain call: drain it -- after a pause in which
+                # the scheduler (E2) may let other threads run: nothing of the body has run yet
+                if self.between is not None and v.name == "sys":
+                    self.between()
                 got = []
                 for x in r:
                     got.append(x)
